@@ -94,6 +94,9 @@ func sortedKeys(m reflect.Value) []reflect.Value {
 func renderText(v reflect.Value) (string, error) {
 	switch v.Kind() {
 	case reflect.Pointer:
+		if k := v.Elem().Kind(); k == reflect.Slice || k == reflect.Map {
+			return renderText(v.Elem())
+		}
 		return renderScalar(v.Elem())
 	case reflect.Slice:
 		var parts []string
@@ -326,4 +329,48 @@ func junk(t reflect.Type) reflect.Value {
 		v.SetBool(true)
 	}
 	return v
+}
+
+// emptyValue is the non-nil "empty" original value of a leaf, for leaves whose
+// conversions can carry it: a pointer to "" for string leaves (the text of a
+// string cast is then the empty string, which parse.String documents as the
+// string itself), a non-nil empty slice / map / set for collections (text "",
+// which the slice / map / set parsers accept as the empty collection).  Leaves
+// that go through a text-unmarshaler are excluded (their types reject "").
+func emptyValue(f *mfield) (reflect.Value, bool) {
+	if f.kind != kLeaf {
+		return reflect.Value{}, false
+	}
+	for _, c := range f.convs {
+		if c == "textunm" {
+			return reflect.Value{}, false
+		}
+	}
+	t := f.otype
+	if implementsText(t) {
+		return reflect.Value{}, false
+	}
+	switch t.Kind() {
+	case reflect.Pointer:
+		if t.Elem().Kind() == reflect.String && !implementsText(t.Elem()) {
+			return reflect.New(t.Elem()), true
+		}
+		if e := t.Elem(); !implementsText(e) {
+			switch e.Kind() {
+			case reflect.Slice:
+				p := reflect.New(e)
+				p.Elem().Set(reflect.MakeSlice(e, 0, 0))
+				return p, true
+			case reflect.Map:
+				p := reflect.New(e)
+				p.Elem().Set(reflect.MakeMap(e))
+				return p, true
+			}
+		}
+	case reflect.Slice:
+		return reflect.MakeSlice(t, 0, 0), true
+	case reflect.Map:
+		return reflect.MakeMap(t), true
+	}
+	return reflect.Value{}, false
 }
